@@ -47,6 +47,7 @@ ConsRaw(s) == IF s = <<>> THEN <<>>
                    IN IF IsRec(m) THEN BagPut(rest, m.v, Sgn(m)) ELSE rest
 Consol(s) == Norm(ConsRaw(s))
 
+MsgBag(s) == LET RECURSIVE B(_) B(x) == IF x = <<>> THEN <<>> ELSE BagPut(B(Tail(x)), Head(x), 1) IN B(s)
 Recs(s) == SelectSeq(s, IsRec)
 Wms(s)  == SelectSeq(s, IsWm)
 
